@@ -200,7 +200,7 @@ class ListTree:
                 pattern_parts.append(self._no_delimiter)
             else:
                 pattern_parts.append(re.escape(part))
-        pattern = '^' + ''.join(pattern_parts) + '$'
+        pattern = '^' + ''.join(pattern_parts) + r'\Z'
         return re.compile(pattern), re.compile(pattern, re.IGNORECASE)
 
     def list_matching(self, ref_name: str, filter_: str) \
